@@ -176,6 +176,110 @@ def concat_literal(rng, kind, encoding='utf-8'):
     return '(' + sep.join(toks) + ')', feats
 
 
+# ---------------------------------------------------------------------------------------------- repeat geometry
+# Literals whose value contains one substring twice at a chosen byte distance.  The string-table compressors encode the
+# second occurrence as a back reference (distance, length); the compact forms of such references have width limits, so
+# the workload enumerates gaps (bytes between the end of the first and the start of the second occurrence) and repeat
+# lengths at and around every power-of-two / field-width boundary, plus random geometries.  The repeated text starts
+# with a trigram (alphabet REP_KEY) that is unique in the module and continues in an alphabet (REP_BODY) that occurs
+# nowhere else, the filler uses a third alphabet - so the intended repeat is the only (hence the longest) candidate.
+REP_KEY = '!#$&()*+,-./:;<='
+REP_BODY = '>?@[]^_{|}~` '
+REP_FILL = 'abcdefghijklmnopqrstuvwxyzABCDEFGHIJKLMNOPQRSTUVWXYZ0123456789'
+REP_GAP_BOUNDS = [0, 0x80] + [0x80 + (1 << k) for k in range(7, 15)]     # 0, 128, 256, 384(=0x80+0x100), 640, 1152, ...
+REP_GAP_BOUNDS_EXTRA = [0x80 + 0x180]           # 2+7 bit field: both high bits set
+REP_LEN_BOUNDS = [3, 3 + 32, 3 + 128, 3 + 256]   # minimum, 5 bit field, 7 bit, 8 bit field
+
+
+def rep_gaps(small, quick=False):
+    """gap values at/around the boundaries: small = below 2 000 bytes; quick: -1, 0, +1 around each boundary and of the
+    large boundaries only the first and the last (window size)"""
+    out = set()
+    for b in REP_GAP_BOUNDS + REP_GAP_BOUNDS_EXTRA:
+        if quick and 2500 < b < 16000:
+            continue
+        for d in ((-1, 0, 1) if quick else (-2, -1, 0, 1, 2)):
+            if b + d >= 0:
+                out.add(b + d)
+    return sorted(g for g in out if (g < 2000) == small)
+
+
+def rep_lengths(rng, quick=False):
+    out = {3, 4, 6} if quick else {3, 4, 5, 6}
+    for b in REP_LEN_BOUNDS[1:]:
+        out.update((b - 1, b) if quick and b == 3 + 128 else (b - 2, b - 1, b, b + 1))
+    out.update((rng.randrange(7, 33), rng.randrange(261, 700)))
+    if not quick:
+        out.update((rng.randrange(37, 130), rng.randrange(133, 257)))
+    return sorted(out)
+
+
+def rep_gap_label(gap):
+    b = min(REP_GAP_BOUNDS + REP_GAP_BOUNDS_EXTRA, key=lambda x: (abs(gap - x), x))
+    if abs(gap - b) <= 2:
+        return 'gap@%d%+d' % (b, gap - b)
+    return 'gap-in-' + ('0..127' if gap < 0x80 else '128..639' if gap < 0x280 else '640..16511' if gap < 0x4080
+                        else '16512..')
+
+
+def rep_len_label(n):
+    return 'replen-' + ('3..34' if n < 35 else '35..258' if n <= 258 else '259..')
+
+
+def repeat_literal(rng, kind, gap, rlen, serial, wide=False):
+    """(source, features): value = head + R + filler(gap bytes in the string table) + R + tail, len(R) == rlen >= 3"""
+    assert rlen >= 3 and 0 <= serial < len(REP_KEY) ** 3
+    key = REP_KEY[serial % 16] + REP_KEY[serial // 16 % 16] + REP_KEY[serial // 256]
+    rep = key + ''.join(rng.choice(REP_BODY) for _ in range(rlen - 3))
+    head = ''.join(rng.choice(REP_FILL) for _ in range(rng.randrange(4, 40)))
+    tail = ''.join(rng.choice(REP_FILL) for _ in range(rng.randrange(4, 40)))
+    # filler items: (source text, bytes it takes in the string table)
+    if kind == 'bytes':
+        wides = [('\\x00', 1), ('\\xff', 1), ('\\x80', 1), ('\\n', 1), ('\\\\', 1)]
+    else:
+        wides = [('é', 2), ('\\xe9', 2), ('€', 3), ('\\u20ac', 3), ('\U0001F600', 4), ('\\U0001f600', 4), ('\\x00', 1),
+                 ('\\n', 1), ('\\N{SNOWMAN}', 3)]
+    items, left = [], gap
+    if wide and gap >= 8:
+        for _ in range(rng.randrange(1, 2 + min(gap // 8, 12))):
+            w = rng.choice(wides)
+            if w[1] <= left - 2:
+                items.append(w)
+                left -= w[1]
+    fill = [(rng.choice(REP_FILL), 1) for _ in range(left)]
+    if fill:
+        # the characters next to the two occurrences must differ, or the repeat would be one longer (and the gap shorter)
+        while fill[-1][0] == head[-1]:
+            fill[-1] = (rng.choice(REP_FILL), 1)
+        while fill[0][0] == tail[0]:
+            fill[0] = (rng.choice(REP_FILL), 1)
+    if items:
+        mid = fill[1:-1] + items
+        rng.shuffle(mid)
+        fill = fill[:1] + mid + fill[-1:]
+    body = ''.join(s for s, _ in fill)
+    feats = {'repeat', rep_gap_label(gap), rep_len_label(rlen), 'prefix-' + ('b' if kind == 'bytes' else 'none'), 'single'}
+    if items:
+        feats.add('repeat-filler-with-escapes-or-non-ascii')
+    return ('b' if kind == 'bytes' else '') + "'" + head + rep + body + rep + tail + "'", feats
+
+
+def repeat_value_gap(value, rlen_key=3):
+    """measured geometry of a generated repeat literal value: (gap in table bytes, repeat length) or None"""
+    b = value.encode('utf-8', 'surrogatepass') if isinstance(value, str) else bytes(value)
+    keyset = REP_KEY.encode()
+    i = next((k for k, c in enumerate(b) if c in keyset), None)
+    if i is None:
+        return None
+    j = b.find(b[i:i + 3], i + 3)
+    if j < 0:
+        return None
+    n = 0
+    while j + n < len(b) and i + n < j and b[i + n] == b[j + n]:
+        n += 1
+    return j - (i + n), n
+
+
 def evaluate(src):
     """value CPython gives the literal (warnings about unknown escapes are fine), or (False, None)"""
     with warnings.catch_warnings():
@@ -214,3 +318,69 @@ def generate(rng, n, encoding='utf-8', long_share=0.02, lengths=None):
                 continue
         out.append({'src': src, 'kind': kind, 'feats': sorted(feats), 'value': val})
     return out
+
+
+# ---------------------------------------------------------------------------------------------- reach: observed stream
+def lzss_tokens_of_c(ctext, plain_size):
+    """back references actually present in the lzss variant of the string table of a generated C file:
+    list of (form, offset, length) or None if the variant is absent / not decodable.  Evidence only (format as
+    documented in Cython/LZSS.py and StringTools.c of the pinned tree); never used to raise an alarm."""
+    m = re.search(r'/\* compression: lzss \((\d+) bytes\) \*/(.*?)__Pyx_DecompressString_LZSS\(', ctext, re.S)
+    if not m or not plain_size:
+        return None
+    size = int(m.group(1))
+    lit = None
+    for line in m.group(2).splitlines():
+        mm = re.match(r'\s*static const char cstring\[\] = "(.*)";\s*$', line)
+        if mm:
+            lit = mm.group(1)
+    if lit is None:
+        return None
+    simple = {'n': 10, 'r': 13, 't': 9, 'a': 7, 'b': 8, 'f': 12, 'v': 11, '\\': 92, '"': 34, "'": 39, '?': 63}
+    out = bytearray()
+    i, n = 0, len(lit)
+    while i < n:
+        c = lit[i]
+        if c == '"' and lit[i:i + 2] == '""':
+            i += 2
+        elif c == '\\':
+            mm = re.compile(r'[0-7]{1,3}').match(lit, i + 1)
+            if mm:
+                out.append(int(mm.group(0), 8) & 0xFF)
+                i = mm.end()
+            elif lit[i + 1:i + 2] in simple:
+                out.append(simple[lit[i + 1]])
+                i += 2
+            else:
+                return None
+        else:
+            out.append(ord(c) & 0xFF)
+            i += 1
+    if len(out) != size:
+        return None
+    toks = []
+    pos = produced = 0
+    try:
+        while produced < plain_size:
+            flags = out[pos] | 0xFF00
+            pos += 1
+            while flags & 0x100 and produced < plain_size:
+                if flags & 1:
+                    pos += 1
+                    produced += 1
+                else:
+                    lo, hi = out[pos], out[pos + 1]
+                    pos += 2
+                    if not lo & 0x80:
+                        form, off, ln = '7bit', lo, hi
+                    elif not hi & 0x80:
+                        form, off, ln = '2+7bit', 0x80 + (((hi << 2) & 0x180) | (lo & 0x7F)), hi & 0x1F
+                    else:
+                        form, off, ln = '7+7bit', 0x80 + ((hi & 0x7F) << 7 | (lo & 0x7F)), out[pos]
+                        pos += 1
+                    toks.append((form, off, ln + 3))
+                    produced += ln + 3
+                flags >>= 1
+    except IndexError:
+        return None
+    return toks
